@@ -85,10 +85,37 @@ def fail_closed_in_controller(ctx):
     return n
 
 
+def served_over_http(ctx):
+    """every GET route of the real HTTP engine, built around a configuration whose secrets are markers given as flags or in the
+    environment: no response may contain them"""
+    exe = L.build_harness(ctx, "httphandlers")
+    if not exe:
+        return 0
+    rc, out = L.run_harness(ctx, exe, "TestVerifC18HTTP$", env={}, timeout=300)
+    if rc != 0:
+        ctx.tie_failures.append("http harness run failed (rc=%d): %s" % (rc, out[-300:]))
+        return 0
+    n = 0
+    for h, lines in L.parse_cases("%s/c18http.impl.txt" % ctx.out):
+        for i, l in enumerate(lines):
+            if l.startswith("< status"):
+                n += 1
+                if l.endswith("leak 1"):
+                    op = L.last_op_before(lines, i)
+                    f = op.split()
+                    path = f[3] if len(f) > 3 else "?"
+                    L.violation(ctx, "c18:http-leak:" + path.split("?")[0], "GET %s (secrets given as %s) answers with the wallet key, the mnemonic or the Ethereum node URL" % (path, f[2] if len(f) > 2 else "?"),
+                                {"clause": "the configuration exposed over HTTP never contains the secrets", "case": h, "ops": [op]})
+            elif l.startswith("< load-failed") or l.startswith("< secrets-not-loaded"):
+                ctx.tie_failures.append("http harness could not load the marker configuration: " + l)
+    return n
+
+
 def run(ctx):
     ctx.trusted_base += [
         "tools/gofacts: GetSanitized regenerated as straight-line assignments (struct-level copies expanded to leaf fields; anything else makes the translator fail), the Config field list, where the whole configuration value flows in cmd/main.go, the HTTP handler's Sanitizable interface",
         "correspondence: real Config.GetSanitized on marker-filled configurations vs the regenerated statements (validates the translator), incl. what %+v and JSON print; real EncryptedTerms.Decrypt/DecryptPoolDest on valid / corrupted / truncated / foreign ciphertexts vs Model.Secrets.decryptDest",
+        "secrets over HTTP: harness/httphandlers/verif_c18_test.go builds the real gin engine (NewHTTPHandler) around a configuration loaded by config.LoadConfig from flags / from the environment with marker secrets, requests every registered GET route (wild cards filled with every net/http/pprof endpoint that answers at once) and searches the responses for the markers",
         "fail closed where it matters: the seller world of C08 (real ContractFactory / ControllerSeller / watcher over the fake chain, payloads really encrypted) is run here too; a purchase or destination update with an empty / undecryptable / non-hex / non-URL payload is compared with Model/Seller.lean (no destination, not fulfilling, error set)",
         "assumed, sampled only: go-ethereum ECIES rejects corrupted, truncated and foreign ciphertexts (cryptographic strength is outside the proof: partial)",
     ]
@@ -100,6 +127,7 @@ def run(ctx):
     cases = part(ctx, "config", "TestVerifC18Sanitize$", "c18cfg.impl.txt", {"VERIF_N": 200 if ctx.tier == "quick" else 5000}, "sanitised configuration")
     cases += part(ctx, "hr", "TestVerifC18Decrypt$", "c18dec.impl.txt", {"VERIF_N": 12 if ctx.tier == "quick" else 40}, "encrypted destination")
     bad_payload_events = fail_closed_in_controller(ctx)
+    http_requests = served_over_http(ctx)
     kinds = {}
     for h, lines in cases:
         for l in lines:
@@ -110,7 +138,7 @@ def run(ctx):
     ctx.coverage.update({
         "evaluations": sum(kinds.values()), "distinct_nontrivial": sum(v for k, v in kinds.items() if k not in ("empty",)),
         "rule": "sanitisation: seeded configurations with a distinct marker in ~75% of the leaf fields (all kinds); decryption: seeded key pairs (a third with a leading zero nibble) x URLs; per ciphertext: valid, empty, foreign key, non-hex, odd length, every (thorough) or every 7th (quick) truncation and single-byte corruption with 3 xor masks, a valid ciphertext of a non-URL. Every op is non-trivial except the empty payload; ops are distinct by construction (fresh randomness per ciphertext)",
-        "op_kinds": kinds, "traces_validated_against_impl": len(cases), "bad_payload_events_through_the_seller_controller": bad_payload_events,
+        "op_kinds": kinds, "traces_validated_against_impl": len(cases), "bad_payload_events_through_the_seller_controller": bad_payload_events, "http_get_requests_searched_for_secrets": http_requests,
     })
     ctx.samples += [{"case": h, "lines": lines[:6]} for h, lines in cases[1:3]]
 
